@@ -501,6 +501,15 @@ func gitNetExec(c *Ctx, op string) {
 	cSide := commit("side.txt", "on a side branch")
 	gitCmd(repo, "checkout", "-q", def)
 	cHead := commit("head.txt", "head of the default branch")
+	// a second, unrelated repository served next to the first under a name that differs only in case
+	repo2 := filepath.Join(base, "NetRepo")
+	os.MkdirAll(repo2, 0755)
+	gitCmd(repo2, "init", "-q", ".")
+	os.WriteFile(filepath.Join(repo2, "other.txt"), []byte("another project"), 0644)
+	gitCmd(repo2, "add", "-A")
+	gitCmd(repo2, "commit", "-q", "-m", "other")
+	cOtherRaw, _ := gitCmd(repo2, "rev-parse", "HEAD")
+	cOther := strings.TrimSpace(cOtherRaw)
 	l, err := net.Listen("tcp", "127.0.0.1:0")
 	if err != nil {
 		c.EmitR(op, "skip", "skip")
@@ -552,6 +561,33 @@ func gitNetExec(c *Ctx, op string) {
 				c.PropFail("git-extra", "the unpacked tree contains .git", op)
 			}
 		}
+	}
+	// the neighbour repository, through the same cache: it has its own commit and lacks the first repository's
+	if len(cOther) == 40 {
+		wh2 := []api.WarehouseLocation{api.WarehouseLocation(fmt.Sprintf("git://127.0.0.1:%d/NetRepo", port))}
+		dst := filepath.Join(base, "dst-foreign")
+		_, e, pan := safeCall(func() (api.WareID, error) {
+			return gittrans.Unpack(context.Background(), api.WareID{Type: "git", Hash: cHead}, dst, uf, rio.Placement_Direct, wh2, rio.Monitor{})
+		})
+		if pan != "" {
+			c.PropFail("git-panic", "unpack over git://: "+pan, op)
+		} else if e == nil {
+			c.PropFail("git-extra", "a commit that only the repository /netrepo has was unpacked from the repository /NetRepo, which lacks it (served from the clone cache of the other address)", op)
+		} else if catOf(e) != "rio-ware-not-found" {
+			c.PropFail("git-wrong-error", "a commit the repository lacks is reported as "+catOf(e), op)
+		}
+		dst = filepath.Join(base, "dst-other")
+		_, e, pan = safeCall(func() (api.WareID, error) {
+			return gittrans.Unpack(context.Background(), api.WareID{Type: "git", Hash: cOther}, dst, uf, rio.Placement_Direct, wh2, rio.Monitor{})
+		})
+		if pan != "" {
+			c.PropFail("git-panic", "unpack over git://: "+pan, op)
+		} else if e != nil {
+			c.PropFail("git-unpack-failed", fmt.Sprintf("the head commit of a second repository (address differing only in case from one unpacked earlier) cannot be unpacked: %v", e), op)
+		} else if _, se := os.Lstat(filepath.Join(dst, "other.txt")); se != nil {
+			c.PropFail("git-missing", "unpack over git:// of the second repository's head lacks other.txt", op)
+		}
+		c.H("gitnet:neighbour")
 	}
 	c.H("gitnet:done")
 	c.EmitR(op, "skip", "skip")
